@@ -181,6 +181,7 @@ SPEC = {
         "include_is_paste", "pragma_once_once",
         "invocation_may_continue_on_next_line", "agrees_line_end_before_parenthesis",
         "api_define_with_line_break_is_rejected", "rejected_directive_rejects_the_file",
+        "null_directive_is_boundary_and_empty_line",
         "differs_unused_argument_expanded", "differs_argument_repainted",
         "differs_painted_function_name_reinvoked", "differs_painted_function_name_reinvoked_acyclic",
         "differs_function_name_before_vanished_macro", "differs_empty_argument_next_to_paste",
